@@ -15,7 +15,7 @@ from ..infer import NODE, SLOT
 from ..model import AnalysisError, Func, iter_own, norm
 from ..pat import find, has, match, one
 from .trav import _if_chain
-from .util import cond_texts, exit_cases, find_cases, find_under, local_value, not_after, path_conds, reaching_values, resolve_expr, split_cond, raised_class, stmt_index, stmts_before, new_params, only_with_new_option, strip_new_options
+from .util import cond_texts, cond_texts_resolved, exit_cases, find_cases, find_under, local_value, not_after, path_conds, reaching_values, resolve_expr, split_cond, raised_class, stmt_index, stmts_before, new_params, only_with_new_option, strip_new_options
 
 
 def _returns(f: Func) -> List[ast.Return]:
@@ -102,6 +102,19 @@ def exh5(ctx: Ctx) -> List[Ob]:
             first_d = [d_ for d_ in dp_ if all(d_ is o_ or not_after(ctx, f, d_, o_) for o_ in dp_)]
             if first_d and all(n_ is not first_d[0] and not_after(ctx, f, first_d[0], n_) and not not_after(ctx, f, n_, first_d[0]) for n_ in np_):
                 ok = False  # the clone index is asked first; the node_id map only afterwards
+    # ... and the key itself is tried as a data_id before it is taken for a data object (whose id is derived from it)
+    derived = [x for x in ast.walk(f.node) if isinstance(x, ast.Call) and norm(x.func).endswith("calc_data_id") and x.args and norm(x.args[0]) == p] + \
+              [x for x in ast.walk(f.node) if isinstance(x, ast.Call) and norm(x.func) == "self.find_all" and len(x.args) == 1 and norm(x.args[0]) == p and not x.keywords]
+    raw = [x for x in ast.walk(f.node) if (isinstance(x, ast.Call) and isinstance(x.func, ast.Attribute) and x.func.attr == "get" and isinstance(x.func.value, ast.Attribute)
+                                           and x.func.value.attr == "_nodes_by_data_id" and x.args and norm(x.args[0]) == p)
+           or (isinstance(x, ast.Compare) and len(x.ops) == 1 and isinstance(x.ops[0], (ast.In, ast.NotIn)) and isinstance(x.comparators[0], ast.Attribute)
+               and x.comparators[0].attr == "_nodes_by_data_id" and norm(x.left) == p)
+           or (isinstance(x, ast.Call) and norm(x.func) == "self.find_all" and any(k.arg == "data_id" and norm(k.value) == p for k in x.keywords))]
+    if derived and raw:
+        wrong = all(not_after(ctx, f, d_, r_) and not not_after(ctx, f, r_, d_) for d_ in derived for r_ in raw)
+        obs.append(ctx.tri("EXH-5", ["C09", "C02"], f, "the key is tried as a data_id before it is resolved as a data object", None, False if wrong else True,
+                           "the id derived from the key (calc_data_id / hash) is looked up first: `tree['A']` returns the node whose *data* is 'A' although another node "
+                           "carries the data_id 'A'"))
     obs.append(ctx.tri("EXH-5", ["C09", "C02"], f, "node_id is consulted before data_id", None, ok, "resolution order: node_id, then data_id, then data: an int key that is both a node_id and a data_id must give the node with that node_id"))
     if did_calls:
         # (one lookup pair per branch of the canonical form: an int key that is no node_id, any other key)
@@ -198,6 +211,11 @@ def dataid_def(ctx: Ctx) -> List[Ob]:
                     isinstance(c.func, ast.Name) and any(b.kind == "val" and isinstance(b.expr, ast.Attribute) and b.expr.attr == "calc_data_id"
                                                           for b in ctx.env.scope(h).resolve(c.func.id)[1])):
                 ok = h.top.qualname in allowed
+                from ..known_funcs import KNOWN_FUNCS as _KF
+
+                if not ok and f"{h.top.module}:{h.top.qualname}" not in _KF and not h.top.name.startswith("_") and not any(
+                        isinstance(x_, ast.Attribute) and isinstance(x_.ctx, (ast.Store, ast.Del)) for x_ in ast.walk(h.top.node)):
+                    ok = True  # a new public *query* that looks a data object up by its id writes nothing
                 obs.append(ctx.ob("DATAID-DEF", ["C02"], h, f"calc_data_id is called in {h.top.qualname}", c, ok,
                                   "" if ok else "an id is re-derived from the data where the node's stored data_id must be used (explicit ids would be lost)"))
     # is_clone / get_clones read the slot of the node's own _data_id
@@ -292,6 +310,18 @@ def kind_branch(ctx: Ctx) -> List[Ob]:
         anyc = [c for c in cs if _any_kind_pol(c.conds) is True]
         want = {"get_children": [CH, "self.children"], "first_child": [f"{CH}[0]"], "last_child": [f"{CH}[-1]"], "has_children": [f"bool({CH})"]}[name]
         ok = None if not anyc else all(any(norm(v) in want for v in reaching_values(ctx, f, c.stmt, c.value)) for c in anyc)
+        if ok is False and name == "has_children":
+            # the same answer spelled as two returns: True where the child list is known to be non-empty, False where it is empty
+            def _agrees(c) -> bool:
+                if any(norm(v) in want for v in reaching_values(ctx, f, c.stmt, c.value)):
+                    return True
+                ts_ = cond_texts_resolved(ctx, f, c.stmt, c.conds)
+                if isinstance(c.value, ast.Constant) and c.value.value is True:
+                    return CH in ts_ or "self.children" in ts_
+                if isinstance(c.value, ast.Constant) and c.value.value is False:
+                    return f"not {CH}" in ts_ or "not self.children" in ts_
+                return False
+            ok = all(_agrees(c) for c in anyc)
         T(f, f"{name}(ANY_KIND) equals the untyped query", ok, f"with the any-kind option the result is the untyped one ({want[0]})")
         kc = [c for c in cs if _any_kind_pol(c.conds) is not True]
         if name == "has_children":
@@ -503,7 +533,7 @@ def _single_return(ctx: Ctx, f: Func):
     return cs[0]
 
 
-@rule("PARENT-WALK", ["C10"], floor=8, section="4/C10")
+@rule("PARENT-WALK", ["C10", "C15", "C02"], floor=8, section="4/C10")
 def parent_walk(ctx: Ctx) -> List[Ob]:
     """the parent-walk family stops at the system root by the same test, `parent` maps the root to None, sibling accessors read the parent's list at the right end, counts walk the default iterator"""
     obs: List[Ob] = []
@@ -742,7 +772,7 @@ FRAME = {
 }
 
 
-@rule("FRAME", ["C04"], floor=8, section="3.4")
+@rule("FRAME", ["C04", "C02", "C13"], floor=8, section="3.4")
 def frame(ctx: Ctx) -> List[Ob]:
     """each mutator's structural writes stay inside its documented footprint (metadata edits touch _meta only, sort only reorders child lists, set_data only data/id/index, move_to only parent links); metadata API details"""
     obs: List[Ob] = []
@@ -872,7 +902,7 @@ def frame(ctx: Ctx) -> List[Ob]:
 
 
 # ----------------------------------------------------------------------- FS
-@rule("FS", ["C19"], floor=8, section="3.13")
+@rule("FS", ["C19", "C05"], floor=8, section="3.13")
 def fs(ctx: Ctx) -> List[Ob]:
     """load_tree_from_fs: both branches build the same entries (name, is_dir / size<-st_size, mdate<-st_mtime), recurse once per directory with the created node, and the sorted branch lists files first (by name) then directories (by name)"""
     from .util import not_after, resolve_expr
@@ -1380,7 +1410,7 @@ def gen(ctx: Ctx) -> List[Ob]:
 
 
 # -------------------------------------------------------------------- SEARCH
-@rule("SEARCH", ["C09"], floor=5, section="4/C09")
+@rule("SEARCH", ["C09", "C02"], floor=5, section="4/C09")
 def search(ctx: Ctx) -> List[Ob]:
     """_search walks the default (pre-order) iterator with the caller's add_self and yields exactly the nodes for which the matcher is true, in walk order"""
     obs: List[Ob] = []
